@@ -22,8 +22,13 @@ type pkgInfo struct {
 	pkg   *types.Package
 }
 
+var (
+	gFset = token.NewFileSet()
+	gImp  = importer.ForCompiler(gFset, "source", nil)
+)
+
 func loadPkg(dir string) (*pkgInfo, error) {
-	fset := token.NewFileSet()
+	fset := gFset
 	pkgs, err := parser.ParseDir(fset, dir, func(fi os.FileInfo) bool {
 		n := fi.Name()
 		return !strings.HasSuffix(n, "_test.go") && !strings.HasPrefix(n, "verif_")
@@ -43,7 +48,7 @@ func loadPkg(dir string) (*pkgInfo, error) {
 		}
 		info := &types.Info{Types: map[ast.Expr]types.TypeAndValue{}, Defs: map[*ast.Ident]types.Object{},
 			Uses: map[*ast.Ident]types.Object{}, Selections: map[*ast.SelectorExpr]*types.Selection{}}
-		conf := types.Config{Importer: importer.ForCompiler(fset, "source", nil), Error: func(error) {}}
+		conf := types.Config{Importer: gImp, Error: func(error) {}}
 		tp, _ := conf.Check(filepath.Base(dir), fset, files, info)
 		return &pkgInfo{fset, files, info, tp}, nil
 	}
